@@ -49,7 +49,7 @@ AppLimited(c, e, inflight, o) ==
   ELSE IF "applim" \in DOMAIN o THEN o.applim
   ELSE inflight <= (e - 1) \div 2 /\ e > 0
 
-InitSt(c, e, nl) == [est |-> e, listeners |-> nl, seen |-> {}, since |-> 0, maxest |-> e]
+InitSt(c, e, nl) == [est |-> e, listeners |-> nl, seen |-> {}, since |-> 0, maxest |-> e, nrej |-> 0]
 
 (* the first reason (class, text) why this sample is not a behaviour of the contract, or <<>> *)
 Check(c, s, i, o) ==
@@ -158,10 +158,16 @@ Step ==
      ELSE \* Sample
        LET r == Check(cfg, st, e.in, e.obs)
            s2 == After(cfg, st, e.in, e.obs)
+           \* a rejected sample is reported and the sequence is judged on from the state the object reports (what one
+           \* class of defect does to the later samples must not hide another class); after a few rejections, or a panic,
+           \* the rest of the sequence is skipped
+           giveup == st.nrej >= 3 \/ e.obs.panic
        IN IF r # <<>>
-          THEN ok' = FALSE /\ UNCHANGED <<cfg, st>> /\ Rej(e, r[1], r[2], [prev |-> st.est])
+          THEN /\ Rej(e, r[1], r[2], [prev |-> st.est]) /\ UNCHANGED cfg
+               /\ IF giveup THEN ok' = FALSE /\ UNCHANGED st ELSE st' = [s2 EXCEPT !.nrej = st.nrej + 1] /\ UNCHANGED ok
           ELSE IF Bare(cfg) /\ cfg.algo \in {"vegas", "gradient"} /\ cfg.probemax # 0 /\ s2.since > ProbeBound(cfg, st)
-          THEN ok' = FALSE /\ UNCHANGED <<cfg, st>> /\ Rej(e, "baseline", "no baseline reset within the bound", [bound |-> ProbeBound(cfg, st)])
+          THEN /\ Rej(e, "baseline", "no baseline reset within the bound", [bound |-> ProbeBound(cfg, st)]) /\ UNCHANGED cfg
+               /\ IF giveup THEN ok' = FALSE /\ UNCHANGED st ELSE st' = [s2 EXCEPT !.nrej = st.nrej + 1, !.since = 0] /\ UNCHANGED ok
           ELSE st' = s2 /\ UNCHANGED <<ok, cfg>>
 
 Done == l > Len(Log) /\ UNCHANGED vars
